@@ -252,13 +252,44 @@ def gen_case(rng, pool):
     for an, t in (("a", "In1"), ("b", "Tg"), ("c", ("list", "Tg"))):
         if rng.random() < 0.75:
             args[an] = gen_lit(rng, t, vars_)
-    qdirs = []
-    for d in rng.sample(list(pool), rng.choice([0, 0, 1, 2])):        # distinct names: unique per location (5.7.3)
-        qdirs.append((d, rng.randrange(100, 200)))
+    # the field may be selected by several nodes merged under one response key (same arguments): the query-side
+    # directives of EVERY node wrap the resolver, in document order; names are unique per node only (5.7.3)
+    n_nodes = rng.choice([1, 1, 1, 2, 2, 3])
+    used_n = set()
+
+    def fresh_n():
+        while True:
+            n = rng.randrange(100, 200)
+            if n not in used_n:
+                used_n.add(n)
+                return n
+    nodes = []
+    for k in range(n_nodes):
+        nd = [(d, fresh_n()) for d in rng.sample(list(pool), rng.choice([0, 0, 1, 2] if k == 0 else [0, 1, 1, 2]))]
+        nodes.append(nd)
+    if n_nodes > 1 and rng.random() < 0.6 and nodes[0]:
+        # the same directive NAME on two nodes, different instances
+        d0 = nodes[0][0][0]
+        k = rng.randrange(1, n_nodes)
+        if all(d != d0 for d, _n in nodes[k]):
+            nodes[k].insert(rng.randrange(len(nodes[k]) + 1), (d0, fresh_n()))
+    qdirs = [x for nd in nodes for x in nd]
     decl = "(%s)" % ", ".join("$%s: %s" % (n, type_text(t)) for n, t, _r in vars_) if vars_ else ""
     argtext = "(%s)" % ", ".join("%s: %s" % (k, lit_text(v)) for k, v in args.items()) if args else ""
-    q = "query %s { echo%s%s obj { v } }" % (decl, argtext, dirs_sdl(qdirs))
-    return {"query": q, "variables": {n: raw_json(r) for n, _t, r in vars_}, "vars": vars_, "args": args, "qdirs": qdirs}
+    sels, frags = [], []
+    for k, nd in enumerate(nodes):
+        node = "echo%s%s" % (argtext, dirs_sdl(nd))
+        form = "plain" if k == 0 else rng.choice(["plain", "inline", "spread"])
+        if form == "plain":
+            sels.append(node)
+        elif form == "inline":
+            sels.append("... on Query { %s }" % node)
+        else:
+            sels.append("...FE%d" % k)
+            frags.append("fragment FE%d on Query { %s }" % (k, node))
+    q = "query %s { %s obj { v } } %s" % (decl, " ".join(sels), " ".join(frags))
+    return {"query": q, "variables": {n: raw_json(r) for n, _t, r in vars_}, "vars": vars_, "args": args, "qdirs": qdirs,
+            "nodes": n_nodes}
 
 
 def cases_file(pool, P, items):
